@@ -288,7 +288,8 @@ class Real:
             skw = {}
             if self.cfg.get('struct_window'):
                 skw = dict(start=self.user_time(self.step_time(self.cfg['struct_window'][0])), end=self.user_time(self.step_time(self.cfg['struct_window'][1])))
-            sa = eao.portfolio.StructuredAsset(name=self.struct_name(), nodes=ext, portfolio=eao.portfolio.Portfolio(inner), **skw)
+            self._inner_portfolio = eao.portfolio.Portfolio(inner)
+            sa = eao.portfolio.StructuredAsset(name=self.struct_name(), nodes=ext, portfolio=self._inner_portfolio, **skw)
             placed = False
             for i in self.order:
                 if i in self.struct:
@@ -316,6 +317,9 @@ class Real:
             self.build()
         with quiet():
             # lifecycle prefix: the same objects have been set up before (same grid object, other prices)
+            if getattr(self, 'preflat', False) and self.struct:
+                # lifecycle prefix: the very Portfolio object that is wrapped was set up on its own (flat, no skipped nodes) before
+                self._inner_portfolio.setup_optim_problem(self.prices, self.timegrid)
             if getattr(self, 'prewrap', None):
                 # lifecycle prefix: the same asset objects were wrapped before in a structured asset with a narrower window of its own
                 # (and that wrapper was set up); wrapping must not leave anything on the assets it wrapped
